@@ -1043,7 +1043,9 @@ bool port_is_enabled(const Port* port, char* loc, size_t loc_size,
                 //    /loc/abc/../enable
                 //            abc/enable
                 //
-                const char* old_end = loc_copy + loclen + 3;
+                // ("../" has only been inserted for relative_to_parent)
+                const char* old_end = loc_copy + loclen
+                                      + (relative_to_parent ? 3 : 0);
                 walker(ask_port, collapsed_loc, old_end, ask_ports, data,
                        ask_runtime);
             }
